@@ -21,6 +21,21 @@ Theorem C07_first_repeated_field : forall req resp f,
 Proof. exact paged_field_first_repeated. Qed.
 Print Assumptions C07_first_repeated_field.
 
+(* how a field is declared with respect to presence (plain, proto3 optional, member of a real oneof) plays no part:
+   re-declaring every field plain leaves the decision and the item field unchanged.  So a method whose tokens or size
+   field are `optional` (the Compute shape) or sit in a oneof is paginated exactly like the plain one. *)
+Theorem C07_presence_irrelevant : forall req resp,
+  paged_result_field (erase_presence req) (erase_presence resp) = option_map plain (paged_result_field req resp).
+Proof. exact presence_irrelevant. Qed.
+Print Assumptions C07_presence_irrelevant.
+
+Example C07_optional_and_oneof_tokens_paged :
+  option_map fname (paged_result_field req_optional_tokens resp_optional_token) = Some "books" /\
+  option_map fname (paged_result_field req_oneof_token resp_std) = Some "books" /\
+  option_map fname (paged_result_field req_conventional_plain [book; mkField "next_page_token" TStr false false (POneof "next")]) = Some "books".
+Proof. exact optional_and_oneof_tokens_paged. Qed.
+Print Assumptions C07_optional_and_oneof_tokens_paged.
+
 (* the three shapes on which code and sentence used to differ (wrapper-typed page_size; mistyped max_results next
    to an integer page_size; repeated page_token) are decided as the sentence says *)
 Example C07_former_gaps_closed :
